@@ -199,7 +199,11 @@ func (s *evalState) push() {
 func (s *evalState) pop() (*depSet, bool) {
 	last := len(s.resolved) - 1
 	deps, tainted := s.resolved[last], s.tainted[last]
-	verifDeps("evalState.pop", len(deps.names)+len(deps.subs))
+	if n := len(deps.names); n >= len(deps.subs) {
+		verifDeps("evalState.pop", n)
+	} else {
+		verifDeps("evalState.pop", len(deps.subs))
+	}
 	s.resolved, s.started, s.tainted = s.resolved[:last], s.started[:last], s.tainted[:last]
 	s.addSet(deps) // the enclosing value depends on them as well
 	return deps, tainted
